@@ -136,7 +136,7 @@ def oracle(history, steps):
                     fails.append((i, 'removed-unexpired', '%s made an unexpired document vanish '
                                   'at %d: %r (ttl %r)' % (st.op[0], sh.now, d, sh.ttl)))
         prev_docs = docs
-        if fails:
+        if any(l not in known_labels for (_, l, _) in fails) or len(fails) > 50:
             break
     return fails
 
